@@ -6,6 +6,8 @@ func extraCommand(name string, args []string) bool {
 		cmdOrdinals(args)
 	case "sim":
 		cmdSim(args)
+	case "handlers":
+		cmdHandlers(args)
 	default:
 		return false
 	}
